@@ -30,6 +30,9 @@ pub fn generate_optimization_report(
         };
         matches.sort();
 
+        //A file without lines is not a finding: a pattern only gets a section if at least one line is listed
+        matches.retain(|(_, lines)| !lines.is_empty());
+
         if matches.len() > 0 {
 
             let report_section = get_optimization_report_section(optimization_target);
